@@ -36,6 +36,7 @@ INNERS.update({
     'tee_zip3': [['tee', 'zip', [[['filter_even']], [['identity']], [['filter_pos']]]]],
     'lag_scan': [['lag2_sum'], ['scan_add']],
     'nested_roll': [['roll', 2, 2, [['scan_add']]]],
+    'nested_roll_wide': [['roll', 17, 1, [['count_r']]]],        # more than 16 overlapping windows per key: whatever tracks them must be per lifetime
     'nested_split': [['split', 'tup2', [['to_list_sum']]], ['scan_add']],     # completion-sensitive inner pipeline: a spurious or missing segment boundary changes the output
     'nested_split_r': [['split', 'tup2', [['count_r']]]],
     'nested_group': [['group', 'mod2', [['first']]], ['count']],
@@ -212,7 +213,7 @@ FAMILIES = {'confined': confined, 'slots': slots, 'many_keys': many_keys, 'many_
 
 
 KEYPAT = [[5, 5, 5], [5, 2, 5], [5, 2, 2], [0, 5, 2], [2, 0, 0]]
-CORE = ('scan_add', 'tee_zip', 'tee_cl', 'take2', 'last', 'distinct', 'pad_end', 'first', 'lag2_sum', 'batch2_sum', 'duc', 'start_with', 'nested_split', 'nested_split_r', 'nested_roll', 'nested_group_s')
+CORE = ('scan_add', 'tee_zip', 'tee_cl', 'take2', 'last', 'distinct', 'pad_end', 'first', 'lag2_sum', 'batch2_sum', 'duc', 'start_with', 'nested_split', 'nested_split_r', 'nested_roll', 'nested_roll_wide', 'nested_group_s')
 ALLP = (('group', 4), ('roll22', 4), ('roll21', 3), ('roll32', 4), ('split', 4), ('tsplit', 3), ('roll13', 4), ('group_roll', 4))
 
 
